@@ -318,6 +318,13 @@ async def _gate(net, rec):
     if not net.gated or rec["op"] in net.ungated_ops:
         return
     import anyio
+    import sys
+    f = sys._getframe(1)
+    while f is not None:        # is this operation part of closing a response / connection (RST_STREAM, connection close ...)?
+        if f.f_code.co_name in ("_response_closed", "aclose") and "/httpcore/" in f.f_code.co_filename.replace("\\", "/"):
+            rec["in_close"] = True
+            break
+        f = f.f_back
     p = Parked(rec, anyio.Event())
     net.pending.append(p)
     try:
